@@ -111,7 +111,14 @@ class World:
         self.step_first = 0
         self.tr.fault_for = self._fault_for
         self.key = Key.from_encoded_key(sk)
-        ctx = ExecutionContext(shell=ShellQuery(RpcNode(URI)), key=self.key)
+        client_key = self.key
+        if cfg.get('watch_only'):
+            # address-only client (`using(key='tz...')`): fees/counters are chosen without the secret key, the signature is made elsewhere
+            from pytezos.context.mixin import KeyHash
+
+            client_key = KeyHash(pkh)
+        self.external_sign = bool(cfg.get('watch_only')) or self.key_kind == 'tz4'
+        ctx = ExecutionContext(shell=ShellQuery(RpcNode(URI)), key=client_key)
         self.client = PyTezosClient(context=ctx)
         self.groups = {}
         self.oracle = oracle
@@ -202,7 +209,11 @@ class World:
             else:
                 for s in specs:
                     grp = make_content(self.client if grp is None else grp, s, client=self.client)
-            self.groups[name] = {'base': grp, 'filled': None, 'signed': None, 'path': None, 'fills': 0, 'specs': specs, 'sim_plan': st.get('sim_plan'),
+            call = None
+            if st.get('via') == 'call' and len(specs) == 1 and specs[0]['kind'] == 'contract_call':
+                # keep the ContractCall itself: `send` then goes through ContractCall.send()
+                call = make_content(self.client, dict(specs[0], raw_call=True), client=self.client)
+            self.groups[name] = {'call': call, 'base': grp, 'filled': None, 'signed': None, 'path': None, 'fills': 0, 'specs': specs, 'sim_plan': st.get('sim_plan'),
                                  'fee_by_client': True}
             return
         g = self.groups.get(name)
@@ -240,14 +251,17 @@ class World:
             minconf = st.get('minconf', 0) if self.cfg.get('baker') else 0
             g['fills'] += 1
             g['path'] = 'send'
-            if self.key_kind == 'tz4':
-                # OperationGroup.sign() cannot produce a generic BLS signature (C07/C23's subject);
-                # mirror send() with the harness attaching the curve-specific signature
+            if self.external_sign:
+                # OperationGroup.sign() cannot produce a generic BLS signature (C07/C23's subject), and an address-only
+                # client cannot sign at all: mirror send() with the harness attaching the signature
                 filled = g['base'].autofill(**(st.get('kw') or {}))
                 g['filled'] = filled
                 signed = self._sign(filled)
                 g['signed'] = signed
                 signed.inject(min_confirmations=minconf)
+            elif g.get('call') is not None:
+                self.bump(self.info, 'sent_through_ContractCall')
+                g['call'].send(min_confirmations=minconf, **(st.get('kw') or {}))
             else:
                 g['base'].send(min_confirmations=minconf, **(st.get('kw') or {}))
             g['injected'] = True
@@ -255,11 +269,11 @@ class World:
             raise core.HarnessError(op)
 
     def _sign(self, opg):
-        if self.key_kind != 'tz4':
+        if not self.external_sign:
             return opg.sign()
         msg = b'\x03' + bytes.fromhex(opg.forge())
-        self.bump(self.info, 'tz4_signature_attached_by_harness')
-        return opg._spawn(signature=self.key.sign(msg, generic=False))
+        self.bump(self.info, 'tz4_signature_attached_by_harness' if self.key_kind == 'tz4' else 'external_signature_for_address_only_client')
+        return opg._spawn(signature=self.key.sign(msg, generic=self.key_kind != 'tz4'))
 
     def result(self, want_log):
         sim = self.sim
